@@ -64,8 +64,12 @@ def generate(r, tier):
     if r.random() < 0.3:
         # end on a pure `load`: "Send a load command or restart the server" are documented as equivalent (oracle c)
         k2 = r.random()
-        spec = (None if k2 < 0.35 else ["tool", r.randrange(len(sc["tool_prefix"]))] if (k2 < 0.7 and sc["tool_prefix"])
+        spec = (["alt"] if (sc["prog_alt"] and r.random() < 0.5) else
+                None if k2 < 0.35 else ["tool", r.randrange(len(sc["tool_prefix"]))] if (k2 < 0.7 and sc["tool_prefix"])
                 else ["hand", r.randrange(len(sc["hand"]))] if sc["hand"] else None)
+        if spec == ["alt"] and sc["tool_prefix"] and r.random() < 0.6:
+            # a long-lived server loads more than once: an earlier load of a file written under this tree
+            sc["reqs"].insert(r.randrange(len(sc["reqs"]) + 1), {"load": ["tool", r.randrange(len(sc["tool_prefix"]))]})
         sc["reqs"].append({"load": spec})
     return sc
 
